@@ -31,3 +31,32 @@ type Stamp struct {
 	CreatedAt *time.Time
 	UpdatedAt *time.Time
 }
+
+// Inner scopes that reuse the names of the bound package-level types.
+func DecodeLegacy(Review map[string]string) (PageInfo int) {
+	{
+		type Review struct{ ID string }
+		type Address struct{ Line string }
+		type Role int
+		r := Review{ID: "1"}
+		a := Address{Line: "x"}
+		var Stamp Role = 2
+		PageInfo := len(r.ID) + len(a.Line) + int(Stamp)
+		_ = PageInfo
+	}
+	const Stamp = "s"
+	return len(Review) + len(Stamp)
+}
+
+type Envelope struct {
+	Review   string
+	Address  int
+	PageInfo bool
+}
+
+func (e Envelope) Role(Address string) (Review string) { return e.Review + Address }
+
+func init() {
+	type Address struct{ Zip string }
+	_ = Address{Zip: "0"}
+}
